@@ -692,6 +692,35 @@ def c05_gpg(ctx, r, quick):
                             if rcode != want:
                                 ctx.violation('spec', f'verify {flags} on a {"signed" if signed_tree else "unsigned"} tree exited {rcode}, expected {want}',
                                               {'flags': flags, 'signed_tree': signed_tree})
+                    # bytes inserted into the signed part of the Manifest FILE - also bytes that are not UTF-8 and that a lenient decoder would drop
+                    # before gpg sees the text: the tree never verifies with -s (BAD signature, or a decoding error), through the CLI and the library
+                    import gemato.recursiveloader as rl
+                    raw = signed.encode('utf8')
+                    b0 = raw.index(b'\n\n') + 2
+                    b1 = raw.index(b'-----BEGIN PGP SIGNATURE-----')
+                    mtree = os.path.join(td, 'mtree')
+                    os.mkdir(mtree)
+                    open(os.path.join(mtree, 'a'), 'w').write('a\n')
+                    ins_tried = ins_rejected = 0
+                    # (no white space: trailing white space of a line is not covered by a cleartext signature)
+                    for ins in (b'\xff', b'\xc3', b'\x80', b'\xfe\xff', b'X', b'\xc3\xa9'):
+                        for at in sorted({b0, b0 + 5, (b0 + b1) // 2, b1 - 1}):
+                            open(os.path.join(mtree, 'Manifest'), 'wb').write(raw[:at] + ins + raw[at:])
+                            ins_tried += 1
+                            n += 1
+                            rcode = run_cli(['gemato', 'verify', '-s', mtree])
+                            lib = 'raised'
+                            try:
+                                m = rl.ManifestRecursiveLoader(os.path.join(mtree, 'Manifest'), verify_openpgp=True, openpgp_env=go.SystemGPGEnvironment())
+                                lib = 'signed' if m.openpgp_signed else 'unsigned'
+                            except Exception as e:
+                                lib = 'raised ' + type(e).__name__
+                            if rcode == 0 or lib == 'signed':
+                                ctx.violation('spec', f'the bytes {ins!r} inserted at offset {at} of the signed Manifest file: gemato verify -s exited {rcode}, the loader reports {lib}',
+                                              {'inserted': repr(ins), 'offset': at, 'cli_exit': rcode, 'library': lib})
+                            else:
+                                ins_rejected += 1
+                    ctx.cov['engines'].setdefault('pgp:real-gpg-keystates', {})['byte_insertions_in_the_manifest_file'] = {'tried': ins_tried, 'rejected': ins_rejected}
                     # several paths in one command: the signature requirement (and every other verdict) holds for each of them, wherever it stands
                     for flags in (['-s'], ['-k', '-s'], []):
                         for trees in ([tree, utree], [utree, tree], [tree, tree], [utree, tree, tree], [tree, utree, tree]):
